@@ -176,11 +176,16 @@ inline std::string diff_model(const Observed &o, const Model &m, bool check_decl
       return r;
     }
   } else {
-    // every key-bearing model section must be listed, and every listed section with keys must be in the model
-    for (auto &s : m.key_sections()) {
-      bool f = false;
-      for (auto &g : o.groups) f = f || g == s;
-      if (!f) return "key-bearing section [" + esc(s) + "] missing from section list";
+    // key-bearing sections, in listing order, must be exactly the model's (key-less ones are tolerated)
+    std::vector<std::string> got;
+    for (auto &sk : o.keys)
+      if (!sk.first.empty() && !sk.second.empty()) got.push_back(sk.first);
+    if (got != m.key_sections()) {
+      std::string r = "key-bearing sections differ: got";
+      for (auto &g : got) r += " [" + esc(g) + "]";
+      r += " expected";
+      for (auto &g : m.key_sections()) r += " [" + esc(g) + "]";
+      return r;
     }
   }
   for (auto &sk : o.keys) {
